@@ -29,7 +29,7 @@ CONSTANTS Accts,      \* {"r1","r2","tss","out"}
           Counter(_, _, _)   \* Counter(r, c, v): the v-th counterparty address governance registers for relayer r on chain c
 
 TssChain == "tss"
-TssAcct == "tss"
+TssAcct == "tss"       \* the account the TSS client is created with
 
 VARIABLES reg,       \* reg[a] = set of chains account a is registered for
           ver,       \* ver[a] = which of its counterparty addresses the current registration of a carries (a re-registration may change it)
@@ -39,49 +39,58 @@ VARIABLES reg,       \* reg[a] = set of chains account a is registered for
           sent,      \* number of packets sent to the TSS chain
           acked,     \* sequences acknowledged
           paid,      \* paid[seq] = account the fee of packet seq went to
+          tssacct,   \* the account configured as the TSS account of the TSS client (governance may move it: RotateTss)
           priv,      \* abstract privileged contract state: number of effects of privileged methods by non-modules
           last
-stateVars == <<reg, ver, upd, rcpt, ackrel, sent, acked, paid, priv>>
+stateVars == <<reg, ver, upd, rcpt, ackrel, sent, acked, paid, priv, tssacct>>
 vars == <<stateVars, last>>
 
 Init == /\ reg = [a \in Accts |-> {}] /\ ver = [a \in Accts |-> 1] /\ upd = [c \in Chains |-> 0] /\ rcpt = {} /\ ackrel = <<>>
-        /\ sent = 0 /\ acked = {} /\ paid = <<>> /\ priv = 0
+        /\ sent = 0 /\ acked = {} /\ paid = <<>> /\ priv = 0 /\ tssacct = TssAcct
         /\ last = [act |-> "Init", res |-> "ok"]
 
 Res(ok) == IF ok THEN "ok" ELSE "err"
 
 (* governance: the proposal replaces the account's entry *)
-RegisterEff(a, cs, v) == reg' = [reg EXCEPT ![a] = cs] /\ ver' = [ver EXCEPT ![a] = v] /\ UNCHANGED <<upd, rcpt, ackrel, sent, acked, paid, priv>>
+RegisterEff(a, cs, v) == reg' = [reg EXCEPT ![a] = cs] /\ ver' = [ver EXCEPT ![a] = v] /\ UNCHANGED <<upd, rcpt, ackrel, sent, acked, paid, priv, tssacct>>
 Register(a, cs, v) == cs # {} /\ RegisterEff(a, cs, v) /\ last' = [act |-> "Register", res |-> "ok", r |-> a, chains |-> cs, v |-> v]
 
-UpdateOK(a, c) == c \in reg[a] /\ (c = TssChain => a = TssAcct)
-UpdateEff(a, c) == IF UpdateOK(a, c) THEN upd' = [upd EXCEPT ![c] = @ + 1] /\ UNCHANGED <<reg, ver, rcpt, ackrel, sent, acked, paid, priv>>
+UpdateOK(a, c) == c \in reg[a] /\ (c = TssChain => a = tssacct)
+UpdateEff(a, c) == IF UpdateOK(a, c) THEN upd' = [upd EXCEPT ![c] = @ + 1] /\ UNCHANGED <<reg, ver, rcpt, ackrel, sent, acked, paid, priv, tssacct>>
                    ELSE UNCHANGED stateVars
 Update(a, c) == upd[c] < MaxUpd /\ UpdateEff(a, c) /\ last' = [act |-> "Update", res |-> Res(UpdateOK(a, c)), signer |-> a, chain |-> c]
 
 (* a receive of packet (c, seq); call = the contract method its call data targets ("none": a harmless call) *)
-RecvOK(a, c, seq) == c = TssChain /\ a = TssAcct /\ c \in reg[a] /\ <<c, seq>> \notin rcpt
+RecvOK(a, c, seq) == c = TssChain /\ a = tssacct /\ c \in reg[a] /\ <<c, seq>> \notin rcpt
 RecvEff(a, c, seq) ==
   IF RecvOK(a, c, seq)
   THEN /\ rcpt' = rcpt \cup {<<c, seq>>}
        /\ ackrel' = (<<c, seq>> :> Counter(a, c, ver[a])) @@ ackrel
-       /\ UNCHANGED <<reg, ver, upd, sent, acked, paid, priv>>          \* privileged call data has no privileged effect
+       /\ UNCHANGED <<reg, ver, upd, sent, acked, paid, priv, tssacct>>          \* privileged call data has no privileged effect
   ELSE UNCHANGED stateVars
 (* pf: what the sender put into the proof field ("junk" or the TSS account's address as bytes): it never matters for *)
 (* a TSS client, whose proof is the signer                                                                          *)
 Recv(a, c, seq, call, pf) == seq \in 1..MaxSeq /\ RecvEff(a, c, seq)
                          /\ last' = [act |-> "Recv", res |-> Res(RecvOK(a, c, seq)), signer |-> a, chain |-> c, seq |-> seq, call |-> call, proof |-> pf]
 
-Send == /\ sent < MaxSeq /\ sent' = sent + 1 /\ UNCHANGED <<reg, ver, upd, rcpt, ackrel, acked, paid, priv>>
+(* governance moves the TSS client to another TSS account (UpgradeClientProposal with a new client state): from then on only *)
+(* that account acts for the TSS chain, and the former one is an ordinary relayer at most                                     *)
+RotateEff(a) == tssacct' = a /\ UNCHANGED <<reg, ver, upd, rcpt, ackrel, sent, acked, paid, priv>>
+RotateTss(a) == RotateEff(a) /\ last' = [act |-> "Rotate", res |-> "ok", to |-> a]
+
+(* the host chain is restarted from its own exported genesis: registry, clients, receipts, acknowledgements stay *)
+Regenesis == UNCHANGED stateVars /\ last' = [act |-> "Regenesis", res |-> "ok"]
+
+Send == /\ sent < MaxSeq /\ sent' = sent + 1 /\ UNCHANGED <<reg, ver, upd, rcpt, ackrel, acked, paid, priv, tssacct>>
         /\ last' = [act |-> "Send", res |-> "ok"]
 
 (* an acknowledgement for packet seq sent to the TSS chain, naming rel = <<r, c>> as relayer *)
 Payee(rel) == { r \in Accts : TssChain \in reg[r] /\ rel = Counter(r, TssChain, ver[r]) }
-AckOK(a, seq, rel) == seq \in 1..sent /\ seq \notin acked /\ a = TssAcct /\ Payee(rel) # {}
+AckOK(a, seq, rel) == seq \in 1..sent /\ seq \notin acked /\ a = tssacct /\ Payee(rel) # {}
 AckEff(a, seq, rel) ==
   IF AckOK(a, seq, rel)
   THEN /\ acked' = acked \cup {seq} /\ paid' = (seq :> CHOOSE r \in Payee(rel) : TRUE) @@ paid
-       /\ UNCHANGED <<reg, ver, upd, rcpt, ackrel, sent, priv>>
+       /\ UNCHANGED <<reg, ver, upd, rcpt, ackrel, sent, priv, tssacct>>
   ELSE UNCHANGED stateVars
 Ack(a, seq, rel, pf) == AckEff(a, seq, rel) /\ last' = [act |-> "Ack", res |-> Res(AckOK(a, seq, rel)), signer |-> a, seq |-> seq, rel |-> rel, proof |-> pf]
 
@@ -96,13 +105,15 @@ Next == \/ \E a \in Accts, cs \in SUBSET Chains, v \in Vers : Register(a, cs, v)
         \/ Send
         \/ \E a \in Accts, s \in 1..MaxSeq, rel \in Rels, pf \in Proofs : Ack(a, s, rel, pf)
         \/ \E p \in Paths, m \in Methods : Priv(p, m)
+        \/ \E a \in Accts \ {"out"} : RotateTss(a)
+        \/ Regenesis
 Spec == Init /\ [][Next]_vars
 
 -----------------------------------------------------------------------------
 (* C06 *)
 Accepted(k) == last'.act = k /\ last'.res = "ok"
 OnlyRegistered == [][(Accepted("Update") \/ Accepted("Recv")) => last'.chain \in reg[last'.signer]]_vars
-TssOnly == [][((Accepted("Update") \/ Accepted("Recv")) /\ last'.chain = TssChain) \/ Accepted("Ack") => last'.signer = TssAcct]_vars
+TssOnly == [][((Accepted("Update") \/ Accepted("Recv")) /\ last'.chain = TssChain) \/ Accepted("Ack") => last'.signer = tssacct]_vars
 NothingForOtherChains == [][(Accepted("Update") \/ Accepted("Recv")) => \A c \in Chains \ {last'.chain} : upd'[c] = upd[c] /\ {x \in rcpt' : x[1] = c} = {x \in rcpt : x[1] = c}]_vars
 AckRelayerField == \A x \in DOMAIN ackrel : \E r \in Accts, v \in Vers : ackrel[x] = Counter(r, x[1], v)
 (* the address of the CURRENT registration of the submitter, also after a re-registration with another address *)
